@@ -333,6 +333,15 @@ def run_check(pid: str, tier: str, seed: int, replay: str | None = None) -> int:
             bad = [a for a in axs if a not in ALLOWED_AXIOMS]
             if bad:
                 broken.append({"kind": "axiom", "name": t, "detail": f"{t} depends on {bad}"})
+    # 3b. thorough tier: independent re-check of the compiled .olean files (and their local imports) by leanchecker
+    recheck = None
+    if mods and build_ok and tier == "thorough" and not os.environ.get("VERIF_NO_LEANCHECKER"):
+        t1 = time.time()
+        with lake_lock():
+            rc, out = sh(["lake", "env", "leanchecker", *mods], cwd=LEAN, timeout=3000)
+        recheck = {"cmd": "lake env leanchecker " + " ".join(mods), "rc": rc, "wall_s": round(time.time() - t1, 1)}
+        if rc != 0:
+            broken.append({"kind": "leanchecker", "name": ",".join(mods), "detail": out[-1500:]})
     # count obligations (theorems declared in the property files, from source text so that a failed build still counts them)
     declared = []
     for m in mods:
@@ -411,6 +420,7 @@ def run_check(pid: str, tier: str, seed: int, replay: str | None = None) -> int:
         "samples": ctx.samples or ["(no sample recorded)"],
         "histogram": dict(sorted(ctx.hist.items())),
         "known_findings_seen": sorted(seen_known),
+        "leanchecker": recheck or "not run (quick tier)",
         "notes": ctx.notes,
         "exhaustive": bool(ctx.extra.get("exhaustive", False)),
     }
